@@ -354,6 +354,14 @@ class Explorer:
             return UNIT()
         return SYM(("const", c.get("s", "?")))
 
+    def operand_ty(self, fn, op):
+        pl = op.get("copy") or op.get("move")
+        if pl is not None and not pl["p"]:
+            return fn["locals"][pl["l"]]
+        if "const" in op:
+            return op["const"].get("ty")
+        return None
+
     def operand(self, st, fr, op):
         if "copy" in op:
             return self.read_place(st, fr, op["copy"])
@@ -369,6 +377,10 @@ class Explorer:
 
     def domain(self, t):
         """Finite domain of a term if known (list of values) else None."""
+        if t[0] == "bin" and t[1] == "BitAnd":
+            for m in (t[2], t[3]):
+                if m[0] == "c" and isinstance(m[1], int) and 0 <= m[1] <= 255:
+                    return [x for x in range(m[1] + 1) if (x & m[1]) == x]
         if t[0] == "discr":
             adt = t[2]
             if adt in BUILTIN_DISCR:
@@ -421,7 +433,8 @@ class Explorer:
                 v = t[1]
                 continue
             if t[0] == "cmp":
-                op, a, b = t[1], t[2], t[3]
+                op, a, b = t[1], self.unintern(t[2]), self.unintern(t[3])
+                t = ("cmp", op, a, b)
                 if op == "Ne":
                     pol = not pol
                     t = ("cmp", "Eq", a, b)
@@ -438,6 +451,12 @@ class Explorer:
                     if repr(t[2]) > repr(t[3]):
                         t = ("cmp", "Eq", t[3], t[2])
             return (t, pol)
+
+    def unintern(self, v):
+        """One level of un-interning (operands of comparison atoms must stay inspectable)."""
+        while isinstance(v, tuple) and len(v) == 2 and v[0] == "#" and isinstance(v[1], int):
+            v = self.interned_rev.get(v[1], v)
+        return v
 
     def eval_bool(self, st, v):
         """Return True/False if decided under constraints, else (term, pol)."""
@@ -566,7 +585,7 @@ class Explorer:
                 return a
             if "Unsize" in rv["ck"] or "PointerCoercion" in rv["ck"]:
                 return a
-            return SYM(self.cap(("cast", a, rv["ty"])))
+            return SYM(self.cap(("cast", a, rv["ty"], self.operand_ty(fr.fn, rv["op"]))))
         if k == "repeat":
             return SYM(("repeat",))
         return SYM(("rv?", k))
@@ -742,7 +761,8 @@ class Explorer:
                     return
                 # undecided: the success edge is followed under the assumption; the obligation is recorded
                 ops = tuple(self.operand(st, fr, t["msg"][k]) for k in ("a", "b", "len", "index") if k in t["msg"])
-                st.effects.append(("assert", t["msg"]["k"], site, "open", (t["msg"].get("op"), cv, ops)))
+                tys = tuple(self.operand_ty(fn, t["msg"][k]) for k in ("a", "b", "len", "index") if k in t["msg"])
+                st.effects.append(("assert", t["msg"]["k"], site, "open", (t["msg"].get("op"), cv, ops, tys)))
                 if ev is not None:
                     self.assume_bool(st, ev, t["expected"])
                 fr.bb = t["t"]
@@ -984,8 +1004,8 @@ class Explorer:
         """Non-inlined call: record effect, havoc &mut arguments, bind a result term."""
         fn = fr.fn
         argterms = tuple(self.deref(st, a) if a[0] == "ref" else a for a in args)
-        if not argterms and info is not None and info.get("targs"):
-            argterms = (("targs", tuple(info["targs"])),)
+        if info is not None and info.get("targs") and (not argterms or (info.get("name") in ("try_into", "try_from", "as_mut", "as_ref") and path not in self.F.fns)):
+            argterms = tuple(argterms) + (("targs", tuple(info["targs"])),)
         # frame rule: accessor(mutator(x, ..)) == accessor(x) when the accessor reads no field the mutator writes
         if argterms and path in self.F.fns:
             a0 = argterms[0]
@@ -1111,17 +1131,24 @@ class Explorer:
             v = args[0]
             adt = "std::option::Option" if "option" in p else "std::result::Result"
             good = "Some" if "option" in p else "Ok"
-            st.effects.append(("unwrap", p, v, site))
             if v[0] == "agg":
                 if v[2] == good:
+                    st.effects.append(("unwrap", p, v, site, "discharged"))
                     return ret(v[3][0])
-                self.finish_path(st, None, "diverge")
+                st.effects.append(("unwrap", p, v, site, "fails"))
+                self.finish_path(st, None, "panic")
                 return "stop"
             if v[0] == "sym":
-                if not self.constrain(st, ("discr", v[1], adt), "eq", self.variant_discr(adt, good)):
-                    self.finish_path(st, None, "diverge")
+                dt = ("discr", v[1], adt)
+                gd = self.variant_discr(adt, good)
+                known = st.cons.get(dt) == ("eq", gd)
+                if not self.constrain(st, dt, "eq", gd):
+                    st.effects.append(("unwrap", p, v, site, "fails"))
+                    self.finish_path(st, None, "panic")
                     return "stop"
+                st.effects.append(("unwrap", p, v, site, "discharged" if known else "open"))
                 return ret(SYM(self.cap(("field", v[1], 0))))
+            st.effects.append(("unwrap", p, v, site, "open"))
             return None
         if p in ("std::result::Result::<T, E>::unwrap_or", "std::option::Option::<T>::unwrap_or"):
             v = args[0]
@@ -1246,12 +1273,87 @@ class Explorer:
         # ---- TypeId role tests
         if p == "std::any::TypeId::of":
             return ret(SYM(("typeid", info["targs"][0])))
+        # ---- Option / Result combinators taking a local closure: decided by the receiver's variant
+        COMB = {"std::option::Option::<T>::map_or": ("opt", "map_or"), "std::option::Option::<T>::map": ("opt", "map"),
+                "std::option::Option::<T>::and_then": ("opt", "and_then"), "std::option::Option::<T>::unwrap_or_else": ("opt", "unwrap_or_else"),
+                "std::result::Result::<T, E>::map_err": ("res", "map_err"), "std::result::Result::<T, E>::map": ("res", "map")}
+        if p in COMB and self.closure_of(st, args[-1]) is not None and self.closure_of(st, args[-1])[1] in self.F.fns:
+            return self.combinator(st, stack, fr, COMB[p], args, t, site, info, path)
         # ---- higher-order calls with a local closure argument
         clos = [(i, self.closure_of(st, a)) for i, a in enumerate(args)]
         clos = [(i, c) for i, c in clos if c is not None and c[1] in self.F.fns]
         if clos:
             return self.higher_order(st, stack, fr, info, path, args, clos, t, site)
         return None
+
+    def combinator(self, st, stack, fr, kind, args, t, site, info, path):
+        """Option::{map, map_or, and_then, unwrap_or_else}, Result::{map, map_err} with a local closure."""
+        fam, name = kind
+        dest, target = t["dest"], t["t"]
+        recv = args[0]
+        clo_arg = args[-1]
+        clo = self.closure_of(st, clo_arg)
+        callee = self.F.fns[clo[1]]
+        OPT, RES = "std::option::Option", "std::result::Result"
+        adt = OPT if fam == "opt" else RES
+        # which variant runs the closure, and what the other variant yields
+        run_on = {"map_or": "Some", "map": "Some" if fam == "opt" else "Ok", "and_then": "Some", "unwrap_or_else": "None", "map_err": "Err"}[name]
+
+        def passthrough(v, variant):
+            if name == "map_or":
+                return args[1]
+            if name == "unwrap_or_else":
+                return v[3][0] if v[0] == "agg" else SYM(self.cap(("field", v[1], 0)))
+            if v[0] == "agg":
+                return v
+            inner = () if variant == "None" else (SYM(self.cap(("field", v[1], 0))),)
+            return AGG(adt, variant, inner)
+
+        def wrap(retv):
+            if name in ("map_or", "and_then", "unwrap_or_else"):
+                return retv
+            if name == "map":
+                return AGG(adt, "Some" if fam == "opt" else "Ok", (retv,))
+            return AGG(RES, "Err", (retv,))
+        variants = ["None", "Some"] if fam == "opt" else ["Ok", "Err"]
+        if recv[0] == "agg":
+            cases = [recv[2]]
+        elif recv[0] == "sym":
+            cases = variants
+        else:
+            return None
+        alts = []
+        for variant in cases:
+            s2 = st.clone() if len(cases) > 1 else st
+            k2 = self.clone_stack(stack) if len(cases) > 1 else stack
+            if recv[0] == "sym" and not self.constrain(s2, ("discr", recv[1], adt), "eq", self.variant_discr(adt, variant)):
+                continue
+            if variant != run_on:
+                self.write_place(s2, k2[-1], dest, passthrough(recv, variant), site)
+                if target is None:
+                    continue
+                k2[-1].bb = target
+                alts.append((s2, k2))
+                continue
+            payload = [] if variant == "None" else [recv[3][0] if recv[0] == "agg" else SYM(self.cap(("field", recv[1], 0)))]
+            ex = self
+
+            def cont(st3, stack3, retv, dest=dest, target=target):
+                fr3 = stack3[-1]
+                ex.write_place(st3, fr3, dest, wrap(retv), site)
+                if target is None:
+                    ex.finish_path(st3, None, "diverge")
+                    return "stop"
+                fr3.bb = target
+                return None
+            self.enter(s2, k2, k2[-1], callee, [clo_arg] + payload, None, None, cont, closure=True)
+            alts.append((s2, k2))
+        if not alts:
+            self.finish_path(st, None, "diverge")
+            return "stop"
+        if len(alts) == 1 and alts[0][0] is st:
+            return "entered" if alts[0][1][-1] is not fr else "ok"
+        return ("fork", alts)
 
     def higher_order(self, st, stack, fr, info, path, args, clos, t, site):
         """f(.., closure, ..): run the closure body 0..closure_k times, then treat the call as opaque."""
